@@ -107,7 +107,7 @@ def run(f, o):
     try: return ('ok', f(o))
     except BaseException as e: return ('exc', type(e).__name__)
 
-@obligation(P, 'history/enumeration', cls='B', cases=lambda tier: [{'kind': k} for k in kinds()], bound='every sequence of 0..3 calls (0..2 in the quick tier) over a per-kind alphabet of 3-5 calls incl. raising calls, other options, sibling instances and module singletons, then each probe call; compared with a fresh object',
+@obligation(P, 'history/enumeration', cls='B', native=True, cases=lambda tier: [{'kind': k} for k in kinds()], bound='every sequence of 0..3 calls (0..2 in the quick tier) over a per-kind alphabet of 3-5 calls incl. raising calls, other options, sibling instances and module singletons, then each probe call; compared with a fresh object',
             funcs=['crysp.sha.SHA1.__call__', 'crysp.keccak.Keccak.__call__', 'crysp.blake.Blake2.__call__', 'crysp.mode.ECB.enc', 'crysp.mode.CBC.enc', 'crysp.mode.CTR.enc', 'crysp.aes.AES.enc', 'crysp.tlsh.TLSH.__call__', 'crysp.hmac.HMAC.__call__'])
 def _(c):
     k = kinds()[c.case('kind')]
